@@ -160,6 +160,64 @@ def build(d, g, shared=None):
     return out
 
 
+def conv_name(d):
+    """the convenience constructor (histogrammar.convenience) that builds a tree of this shape, if any"""
+    plain = lambda c: c.get("k") == "Count" and c.get("tr") == "id"  # noqa: E731
+    if any(n.get("share") or n.get("inst") for n in (d, d.get("value", {}), d.get("cut", {}))):
+        return None
+    k = d["k"]
+    if k == "Select" and d["cut"]["k"] == "Bin" and conv_name(d["cut"]) == "Histogram":
+        return "HistogramCut"
+    if k == "Categorize" and plain(d["value"]):
+        return "CategorizeHistogram"
+    if k == "Bin" and all(plain(d[f]) for f in ("under", "over", "nan")):
+        v = d["value"]
+        if plain(v):
+            return "Histogram"
+        if v["k"] in ("Average", "Deviate"):
+            return {"Average": "Profile", "Deviate": "ProfileErr"}[v["k"]]
+        if v["k"] == "Bin" and conv_name(v) == "Histogram":
+            return "TwoDimensionallyHistogram"
+    if k == "SparselyBin" and plain(d["nan"]):
+        v = d["value"]
+        if plain(v):
+            return "SparselyHistogram"
+        if v["k"] in ("Average", "Deviate"):
+            return {"Average": "SparselyProfile", "Deviate": "SparselyProfileErr"}[v["k"]]
+        if v["k"] == "SparselyBin" and conv_name(v) == "SparselyHistogram":
+            return "TwoDimensionallySparselyHistogram"
+    return None
+
+
+def build_conv(d, g):
+    """like build, through the convenience constructor conv_name(d)"""
+    from histogrammar import convenience as hg
+
+    name = conv_name(d)
+    q = make_quantity
+    v = d.get("value")
+    if name == "Histogram":
+        return hg.Histogram(d["num"], g.pos(d["lo"]), g.pos(d["hi"]), q(d))
+    if name == "HistogramCut":
+        c = d["cut"]
+        return hg.HistogramCut(c["num"], g.pos(c["lo"]), g.pos(c["hi"]), q(c), q(d))
+    if name == "SparselyHistogram":
+        return hg.SparselyHistogram(g.width(d["width"]), q(d), g.pos(d["origin"]))
+    if name == "CategorizeHistogram":
+        return hg.CategorizeHistogram(q(d))
+    if name in ("Profile", "ProfileErr"):
+        return getattr(hg, name)(d["num"], g.pos(d["lo"]), g.pos(d["hi"]), q(d), q(v))
+    if name in ("SparselyProfile", "SparselyProfileErr"):
+        return getattr(hg, name)(g.width(d["width"]), q(d), q(v), g.pos(d["origin"]))
+    if name == "TwoDimensionallyHistogram":
+        return hg.TwoDimensionallyHistogram(d["num"], g.pos(d["lo"]), g.pos(d["hi"]), q(d),
+                                            v["num"], g.pos(v["lo"]), g.pos(v["hi"]), q(v))
+    if name == "TwoDimensionallySparselyHistogram":
+        return hg.TwoDimensionallySparselyHistogram(g.width(d["width"]), q(d), g.width(v["width"]), q(v),
+                                                    g.pos(d["origin"]), g.pos(v["origin"]))
+    raise ValueError(name)
+
+
 def build_default(d, g):
     """like build, but child positions whose descriptor is a plain Count are left to the constructor's DEFAULT
     argument (C06: constructor calls relying on default arguments must not share state)"""
